@@ -3,6 +3,8 @@
 // member functions of VectorImpl call them, and prints the state of every slot before and after the call.
 // lib/slotcorr.py evaluates the Coq slot models (coq/Slots.v, Erase.v, Alias.v, Throw.v, EmplaceGrow.v) on the same cases and
 // compares.  The families of EmplaceGrow.v (emplace_n_th, emplace_grow_th, emplace_back_grow_th) print composite states.
+// The families `*_mt` (coq/ThrowMove.v) run the same helpers on vf::El<2>, whose move constructor and move assignment are
+// throwing-capable events too: every throw index, every catch branch of shift_right / emplace_n / insert_n is reached.
 // The line format, the real function behind every case and the model it is compared with: see SLOTDRV.md.
 //
 //   CASE <name> <param>=<int>... k=<k|-> | pre=<slots> | post=<slots> | threw=<0|1> | newsize=<n|-> | errs=<n> live=<n> [msg=<text>]
@@ -36,26 +38,36 @@ typedef uint32_t SizeType;  // size_type of amc::vector<T>
 static_assert(!amc::is_trivially_relocatable<T>::value && !std::is_trivially_copyable<T>::value, "El<0> must be NTR");
 static_assert(amc::vec::is_shift_nothrow<T>::value, "El<0> moves are noexcept: only copies / value constructions throw");
 
+// the element of the `*_mt` families: as El<0>, and its moves are throwing-capable events ("NTM")
+typedef vf::El<2> TM;
+static_assert(!amc::is_trivially_relocatable<TM>::value && !std::is_trivially_copyable<TM>::value, "El<2> must be NTR");
+static_assert(!amc::vec::is_shift_nothrow<TM>::value && !std::is_nothrow_move_constructible<TM>::value &&
+                  !std::is_nothrow_move_assignable<TM>::value,
+              "El<2> moves may throw");
+
 static const int kFirstValue = 10;  // the live prefix holds 10, 11, ...
 static const int kNewValue = 99;    // the value inserted / assigned when it does not come from the buffer itself
 
 // raw buffer of exactly `cap` slots (ASan sees any access beyond it), filled with 0xEE: such a slot has no ledger identity
-struct Buf {
-  T *data;
+template <class E>
+struct BufOf {
+  E *data;
   int cap;
-  explicit Buf(int c) : data(static_cast<T *>(std::malloc(c > 0 ? static_cast<size_t>(c) * sizeof(T) : 1))), cap(c) {
-    if (c > 0) std::memset(static_cast<void *>(data), 0xEE, static_cast<size_t>(c) * sizeof(T));
+  explicit BufOf(int c) : data(static_cast<E *>(std::malloc(c > 0 ? static_cast<size_t>(c) * sizeof(E) : 1))), cap(c) {
+    if (c > 0) std::memset(static_cast<void *>(data), 0xEE, static_cast<size_t>(c) * sizeof(E));
   }
-  ~Buf() { std::free(data); }
-  Buf(const Buf &) = delete;
-  Buf &operator=(const Buf &) = delete;
+  ~BufOf() { std::free(data); }
+  BufOf(const BufOf &) = delete;
+  BufOf &operator=(const BufOf &) = delete;
 };
+typedef BufOf<T> Buf;
 
-static std::string statesOf(const T *data, int n) {
+template <class E>
+static std::string statesOf(const E *data, int n) {
   std::vector<std::string> out;
   std::vector<long> claimed;
   for (int i = 0; i < n; ++i) {
-    const T *p = data + i;
+    const E *p = data + i;
     if (!G().isLive(p->id) || std::find(claimed.begin(), claimed.end(), p->id) != claimed.end()) {
       out.push_back("R");
       continue;
@@ -67,21 +79,27 @@ static std::string statesOf(const T *data, int n) {
   }
   return vf::joinStr(out);
 }
-static std::string slotStates(const Buf &b) { return statesOf(b.data, b.cap); }
-static int liveIn(const T *data, int n) {
+template <class E>
+static std::string slotStates(const BufOf<E> &b) {
+  return statesOf(b.data, b.cap);
+}
+template <class E>
+static int liveIn(const E *data, int n) {
   int c = 0;
   for (int i = 0; i < n; ++i) c += G().isLive(data[i].id) ? 1 : 0;
   return c;
 }
-static void killAll(Buf &b) {
+template <class E>
+static void killAll(BufOf<E> &b) {
   for (int i = 0; i < b.cap; ++i)
-    if (G().isLive(b.data[i].id)) b.data[i].~T();
+    if (G().isLive(b.data[i].id)) b.data[i].~E();
 }
 
 // initial states ----------------------------------------------------------------------------------------------------
 // the vector invariant: `size` live elements 10, 11, ... then raw slots
-static void setupPrefix(T *buf, int size) {
-  for (int i = 0; i < size; ++i) ::new (static_cast<void *>(buf + i)) T(kFirstValue + i);
+template <class E>
+static void setupPrefix(E *buf, int size) {
+  for (int i = 0; i < size; ++i) ::new (static_cast<void *>(buf + i)) E(kFirstValue + i);
 }
 // the state shift_right(buf + pos, size - pos, count) leaves behind, built by hand (not by shift_right):
 // [0,pos) live | min(n,count) moved-from | raw up to pos+count | the n shifted elements | raw
@@ -97,14 +115,15 @@ static void setupShifted(T *buf, int size, int pos, int count) {
 
 // one case, for every throw index ------------------------------------------------------------------------------------
 // body(buf, v) returns the size the member function would set (or -1 when the model does not compute one)
-template <class Setup, class Body>
-static void runCase(const char *name, const std::string &params, int cap, bool sweepThrows, long sizeOnThrow, Setup setup, Body body) {
+// E: the element type (T = El<0> for the families of Slots / Erase / Alias / Throw / EmplaceGrow, TM = El<2> for ThrowMove)
+template <class E, class Setup, class Body>
+static void runCaseOf(const char *name, const std::string &params, int cap, bool sweepThrows, long sizeOnThrow, Setup setup, Body body) {
   for (long k = -1;; ++k) {
     bool threw = false;
     {
-      Buf b(cap);
+      BufOf<E> b(cap);
       setup(b.data);
-      T v(kNewValue);  // the only live object outside the buffer
+      E v(kNewValue);  // the only live object outside the buffer
       G().errors.clear();
       const long errs0 = G().nErrors;
       const std::string pre = slotStates(b);
@@ -113,7 +132,7 @@ static void runCase(const char *name, const std::string &params, int cap, bool s
       long newSize = sizeOnThrow;
       G().countdown = k;
       try {
-        newSize = body(b.data, static_cast<const T &>(v));
+        newSize = body(b.data, static_cast<const E &>(v));
       } catch (const std::runtime_error &) {
         threw = true;
       }
@@ -128,6 +147,10 @@ static void runCase(const char *name, const std::string &params, int cap, bool s
     }
     if (!sweepThrows || (k >= 0 && !threw)) break;  // k = -, 0, 1, ... until the call completes
   }
+}
+template <class Setup, class Body>
+static void runCase(const char *name, const std::string &params, int cap, bool sweepThrows, long sizeOnThrow, Setup setup, Body body) {
+  runCaseOf<T>(name, params, cap, sweepThrows, sizeOnThrow, setup, body);
 }
 
 static std::string P(const char *a, int x) { return std::string(a) + "=" + std::to_string(x); }
@@ -173,20 +196,21 @@ static long insertOwn(T *buf, int size, int pos, int src) {
 // src = index of the own element passed as the argument; src = cap + 2 (the slot of the model): the external object.
 static std::string eState(long unaccounted) { return unaccounted == 0 ? std::string("R") : "X" + std::to_string(unaccounted); }
 
-static void runEmplaceN(int size, int cap, int pos, int src, int rv) {
+template <class E>
+static void runEmplaceNOf(const char *name, int size, int cap, int pos, int src, int rv) {
   const bool own = src < size;
   const std::string params = P("size", size, "cap", cap) + " " + P("pos", pos, "src", src) + " " + P("rv", rv);
   for (long k = -1;; ++k) {
     bool threw = false;
     {
-      Buf b(cap);
+      BufOf<E> b(cap);
       setupPrefix(b.data, size);
-      T ext(kNewValue);  // alive during every case, the argument when src is not an own element
-      T *arg = own ? b.data + src : &ext;
+      E ext(kNewValue);  // alive during every case, the argument when src is not an own element
+      E *arg = own ? b.data + src : &ext;
       G().errors.clear();
       const long errs0 = G().nErrors;
       const std::string pre = slotStates(b) + "/" + statesOf(arg, 1) + "/" + eState(G().live - 1 - liveIn(b.data, cap));
-      std::printf("CASE emplace_n_th %s k=%s |", params.c_str(), k < 0 ? "-" : std::to_string(k).c_str());
+      std::printf("CASE %s %s k=%s |", name, params.c_str(), k < 0 ? "-" : std::to_string(k).c_str());
       std::fflush(stdout);
       long newSize = size;
       G().countdown = k;
@@ -194,7 +218,7 @@ static void runEmplaceN(int size, int cap, int pos, int src, int rv) {
         if (rv) {
           amc::vec::emplace_n(b.data + pos, static_cast<SizeType>(size - pos), std::move(*arg));
         } else {
-          amc::vec::emplace_n(b.data + pos, static_cast<SizeType>(size - pos), static_cast<const T &>(*arg));
+          amc::vec::emplace_n(b.data + pos, static_cast<SizeType>(size - pos), static_cast<const E &>(*arg));
         }
         newSize = size + 1;
       } catch (const std::runtime_error &) {
@@ -212,6 +236,7 @@ static void runEmplaceN(int size, int cap, int pos, int src, int rv) {
     if (k >= 0 && !threw) break;
   }
 }
+static void runEmplaceN(int size, int cap, int pos, int src, int rv) { runEmplaceNOf<T>("emplace_n_th", size, cap, pos, src, rv); }
 
 // a FULL amc::vector (size == capacity) whose allocator counts `allocate` as a throwing-capable event
 typedef amc::vector<T, vf::LedgerAlloc<T, false>, SizeType> GrowVec;
@@ -362,6 +387,42 @@ int main(int argc, char **argv) {
             for (int rv = 0; rv <= 1; ++rv) runEmplaceN(size, cap, pos, src < size ? src : cap + 2, rv);
           }
         }
+
+        // ---- the same helpers on El<2> (moves are throwing-capable events): every throw index, coq/ThrowMove.v -------------
+        auto prefixM = [=](TM *buf) { setupPrefix(buf, size); };
+        if (n > 0) {
+          for (int count = 1; count <= extra; ++count) {
+            runCaseOf<TM>("shift_right_cnt_mt", sc + " " + P("pos", pos, "count", count), cap, true, -1, prefixM, [=](TM *buf, const TM &) {
+              amc::vec::shift_right(buf + pos, static_cast<SizeType>(n), static_cast<SizeType>(count));
+              return -1L;
+            });
+          }
+        }
+        if (n > 0 && extra >= 1) {
+          runCaseOf<TM>("shift_right1_mt", sc + " " + P("pos", pos), cap, true, -1, prefixM, [=](TM *buf, const TM &) {
+            amc::vec::shift_right(buf + pos, static_cast<SizeType>(n));
+            return -1L;
+          });
+          // shift_left alone, on the state the real shift_right leaves (built without a fault)
+          runCaseOf<TM>("shift_left_mt", sc + " " + P("pos", pos), cap, true, -1,
+                        [=](TM *buf) {
+                          setupPrefix(buf, size);
+                          amc::vec::shift_right(buf + pos, static_cast<SizeType>(n));
+                        },
+                        [=](TM *buf, const TM &) {
+                          amc::vec::shift_left(buf + pos + 1, static_cast<SizeType>(n));
+                          return -1L;
+                        });
+        }
+        if (extra >= 1) {
+          runCaseOf<TM>("insert_n_mt", sc + " " + P("pos", pos), cap, true, -1, prefixM, [=](TM *buf, const TM &v) {
+            amc::vec::insert_n(buf + pos, static_cast<SizeType>(n), v);
+            return -1L;
+          });
+          for (int src = 0; src <= size; ++src) {
+            for (int rv = 0; rv <= 1; ++rv) runEmplaceNOf<TM>("emplace_n_mt", size, cap, pos, src < size ? src : cap + 2, rv);
+          }
+        }
       }
 
       // emplace / emplace_back of a full vector (growth path), once per size
@@ -384,6 +445,15 @@ int main(int argc, char **argv) {
             }
             return -1L;
           });
+          // the same with throwing moves: the size is set after erase_n (not reached on a throw)
+          runCaseOf<TM>("erase_mt", sc + " " + P("first", first, "last", last), cap, true, -1,
+                        [=](TM *buf) { setupPrefix(buf, size); }, [=](TM *buf, const TM &) {
+                          SizeType n = static_cast<SizeType>(last - first);
+                          if (n != 0) {
+                            amc::vec::erase_n(buf + first, n, static_cast<SizeType>(size - last));
+                          }
+                          return -1L;
+                        });
         }
       }
 
